@@ -112,6 +112,18 @@ def streams(rng, tier):
     for _ in range(n // 2):
         s = "".join(chr(rng.randrange(256)) for _ in range(rng.randrange(0, 40)))
         for e in ("parse_email.bytes", "Metadata.from_email.bytes", "ELFFile"): add("arbitrary-bytes", e, s)
+    # digit-like characters: str.isdigit() / isdecimal() / int() / \d disagree on them
+    DIGITLIKE = ["²", "³", "①", "١", "１", "৪", "𝟙", "⁰"]
+    for _ in range(n):
+        v = gen.V(rng.choice([0, 0, 1]), tuple(rng.choice(gen.SMALL) for _ in range(rng.choice([1, 2, 3]))), None, rng.choice([None, None, 1]), None, None)
+        t = list(gen.vstr(v)); i = rng.randrange(len(t) + 1)
+        if rng.random() < 0.5 and t: t[min(i, len(t) - 1)] = rng.choice(DIGITLIKE)
+        else: t.insert(i, rng.choice(DIGITLIKE))
+        t = "".join(t)
+        for e in rng.sample(["Version", "canonicalize_version", "Specifier.contains", "SpecifierSet.contains", "Specifier.arbitrary"], 2): add("digit-like", e, t)
+        add("digit-like", "Specifier", rng.choice(gen_spec.OPS) + t)
+        add("digit-like", "parse_wheel_filename", "foo-%s-%s-py3-none-any.whl" % (gen.vstr(v), rng.choice(DIGITLIKE) + "x"))
+        add("digit-like", "Requirement", "foo==" + t)
     # known finding D10: the interpreter's int/str digit limit
     big = "9" * 4301
     for e, t in (("Version", big), ("canonicalize_version", "1." + big), ("Specifier.contains", big + ".0"), ("Version", "1.0+" + big),
